@@ -300,7 +300,8 @@ def region_rcb_input(case):
 
 
 def _unfolded_lines(text):
-    return re.sub(r"(\r?\n)+[ \t]", "", text).splitlines()
+    # split exactly like the library does (a bare CR or U+2028 is data, not a line end)
+    return [ln for ln in re.split(r"\r?\n", re.sub(r"(\r?\n)+[ \t]", "", text)) if ln]
 
 
 def region_mismatched_end(case):
@@ -311,7 +312,7 @@ def region_mismatched_end(case):
         m = re.match(r"(?i)\s*(BEGIN|END)\s*(?:;[^:]*)?:(.*)$", ln)
         if not m:
             continue
-        name = m.group(2).strip().upper()
+        name = m.group(2).upper()        # exact value (the parser does not strip it either: 'END:VTIMEZONE\r' is another name)
         if m.group(1).upper() == "BEGIN":
             stack.append(name)
         else:
@@ -321,12 +322,35 @@ def region_mismatched_end(case):
     return bool(stack)
 
 
+def region_tzid_property_after_vtimezone(case):
+    """RC-L (see C12) seen through C01: time zones of custom TZIDs are resolved while reading, in file order.  Serialising
+    writes a component's own properties before its subcomponents, so a property with a TZID parameter that stands *after* a
+    VTIMEZONE subcomponent of the same component is re-read before the definition and becomes floating.  Region: the input has
+    such a line."""
+    stack = []     # per open component: has a VTIMEZONE child been closed already?
+    for ln in _unfolded_lines(input_text(case)):
+        m = re.match(r"(?i)\s*(BEGIN|END)\s*(?:;[^:]*)?:(.*)$", ln)
+        if m:
+            if m.group(1).upper() == "BEGIN":
+                stack.append([m.group(2).strip().upper(), False])
+            elif stack:
+                name, _ = stack.pop()
+                if stack and name == "VTIMEZONE":
+                    stack[-1][1] = True
+            continue
+        if stack and stack[-1][1] and re.search(r"(?i);\s*TZID\s*=", ln.split(":", 1)[0] + ":"):
+            return True
+        if stack and stack[-1][1] and re.search(r"(?i);TZID=", ln):
+            return True
+    return False
+
+
 def region_component_name_needs_escaping(case):
     """RC-Z2: BEGIN/END values are TEXT-escaped twice on output.  Region: a BEGIN/END line whose value contains ; , or backslash."""
     return any(re.match(r"(?i)\s*(BEGIN|END)\s*(?:;[^:]*)?:.*[;,\\]", ln) for ln in _unfolded_lines(input_text(case)))
 
 
-REGIONS = {"rcb-input": region_rcb_input, "mismatched-end": region_mismatched_end, "component-name-needs-escaping": region_component_name_needs_escaping}
+REGIONS = {"rcb-input": region_rcb_input, "mismatched-end": region_mismatched_end, "tzid-property-after-vtimezone": region_tzid_property_after_vtimezone, "component-name-needs-escaping": region_component_name_needs_escaping}
 
 # ----------------------------------------------------------------------------- strategies
 _hostile = st.lists(st.one_of(st.sampled_from(["\\", "n", "N", ";", ",", ":", '"', "%", "2", "3", "5", "A", "B", "C", " ", "\n", "a", "é", "%2C", "\\n", "\\;"]),
